@@ -91,6 +91,17 @@ Theorem C14_suppress_exact_partial : forall fe S items,
 Proof. exact run_suppress_exact. Qed.
 Print Assumptions C14_suppress_exact_partial.
 
+(* FULL, no guard: for every item sequence the output under S is the output under [] with the matching
+   log lines and system_message nodes removed AND, for a reference to a missing '#target' that has no
+   explicit text and whose warning is removed, the fallback text "#target" added ([strip_coupled]).
+   This is the exact behaviour of the code; the difference between [strip_coupled] and [strip] is the
+   open finding "suppress-side-effect:xref_missing:fallback-link-text". *)
+Theorem C14_suppress_exact_coupled : forall fe S items,
+  forallb item_type_nodot items = true ->
+  run fe S items = strip_coupled S (run fe [] items).
+Proof. exact run_suppress_coupled. Qed.
+Print Assumptions C14_suppress_exact_coupled.
+
 (* without the guard the statement is false for the faithful model: [](#missing) without link text gets
    the fallback text "#missing" only when myst.xref_missing is suppressed *)
 Theorem C14_suppress_exact_refuted :
